@@ -86,7 +86,7 @@ Definition sa_transfer_omega (eps2 omega : S) (bs : nat) (A : crs) (junk : vec) 
 Definition sa_transfer (eps2 relax c23 : S) (bs : nat) (A : crs) (junk : vec) : transfer :=
   sa_transfer_omega eps2 (sa_omega relax c23) bs A junk.
 (* Gershgorin estimate spectral_radius<true>(A, 0): MatOps2.spectral_radius_gersh (current code, /repo
-   f082a42: [dia] reset to the identity for every row), one thread = one chunk *)
+   519d545: [dia] reset to the identity for every row), one thread = one chunk *)
 Definition sa_transfer_gersh (eps2 relax c43 : S) (bs : nat) (A : crs) (junk : vec) : transfer :=
   sa_transfer_omega eps2 (sa_omega_rho relax c43 (spectral_radius_gersh true [nrows A] A)) bs A junk.
 Definition sa_coarse (nt : nat) (A P R : crs) : crs := galerkin nt A P R.
@@ -195,7 +195,7 @@ Definition cfget (cf : list cfm) (i : nat) : cfm := nth i cf CU.
 Definition ng (l : list nat) (i : nat) : nat := nth i l 0%nat.
 
 (* connect(): a_min = min(0, off-diagonal values); rows with |a_min| < eps become 'F' and
-   (since /repo commit 8cfa879) all their S.val cells are written with false.  Before that
+   (since /repo commit 7bd138f) all their S.val cells are written with false.  Before that
    fix the cells kept the content of `new char[nnz]`; the [junk] input (per row, true =
    non-zero char) is kept in the signature so that "for every heap content" stays a
    statement about the model: it is no longer read (rs_*_junk_independent). *)
@@ -419,7 +419,7 @@ Definition with_coarse (t : transfer S) (coarse : crs S -> crs S -> crs S) (next
   | TrEmpty => StepEmpty | TrPrecond => StepPrecond | TrOob => StepOob
   | TrOk P R => StepOk P R (coarse P R) next
   end.
-(* junk: diagonal cells of rows without a diagonal entry (plain_aggregates); junkf: unused since 8cfa879 *)
+(* junk: diagonal cells of rows without a diagonal entry (plain_aggregates); junkf: unused since 7bd138f *)
 Definition coarsen_step (nt : nat) (pol : @policy S) (A : crs S) (junk : vec S) (junkf : flags) : @step_result S :=
   match pol with
   | PolAggregation eps2 bs s =>
